@@ -320,7 +320,8 @@ func (e *Enc) mergeStates(conds []Term, sts []*State) *State {
 
 // addOblig registers an obligation.
 func (e *Enc) addOblig(kind, name string, props []string, pos string, reach, goal Term) *Oblig {
-	if goal.S == "true" {
+	trivial := goal.S == "true"
+	if trivial && (k1Kinds[kind] || kind == "cover" || kind == "wf" || strings.HasPrefix(kind, "inv")) {
 		return nil
 	}
 	if sp := e.Spec; sp != nil {
@@ -339,6 +340,13 @@ func (e *Enc) addOblig(kind, name string, props []string, pos string, reach, goa
 		full = fmt.Sprintf("%s#%d", full, n+1)
 	}
 	o := &Oblig{Name: full, Kind: kind, Props: props, Func: e.Key, Pos: pos, Reach: reach, Goal: goal, enc: e, Inputs: e.inputs}
+	if trivial {
+		// a contract clause that the encoding reduces to "true" (a constant
+		// argument, say) is still an obligation of the contract: it is recorded
+		// as discharged, so that it is known to the ledger when a change makes
+		// it non-trivial
+		o.Result = &SolveResult{Status: "unsat", Backend: "constant"}
+	}
 	e.obligs = append(e.obligs, o)
 	return o
 }
